@@ -98,6 +98,14 @@ func capsCase(name string, events []ev, syncerID int, maxIn, maxOut int, tags []
 // inflightCases replays the in-flight accounting of one syncer, one case per subnet key
 // (projection: the entries of inflightSubnet are independent).
 func inflightCases(name string, events []ev, syncerID, tgID int, maxPeer, maxSub int, tags []string) []*vh.Case {
+	return inflightCasesQ(name, events, syncerID, tgID, maxPeer, maxSub, -1, tags)
+}
+
+// inflightCasesQ: from event number quietFrom on (if >= 0) the harness guarantees that the
+// slot.want / slot.take steps happen at quiescent moments (no handler of that peer is between its
+// release hook and the release itself), so the real len(inflight) recorded by those steps is
+// compared with the model's semaphore count (ops wantq / takeq).
+func inflightCasesQ(name string, events []ev, syncerID, tgID int, maxPeer, maxSub int, quietFrom int, tags []string) []*vh.Case {
 	// pass 1: roles of goroutines.
 	type role struct {
 		kind    int // 0 other, 1 runPeer loop, 2 handler
@@ -229,6 +237,10 @@ func inflightCases(name string, events []ev, syncerID, tgID int, maxPeer, maxSub
 					continue
 				}
 				switch {
+				case e.Kind == "s.slot.want" && quietFrom >= 0 && e.Seq >= quietFrom:
+					c.Op(fmt.Sprintf("wantq %d", idx[p]), fmt.Sprintf("ok %d", e.B))
+				case e.Kind == "s.slot.take" && quietFrom >= 0 && e.Seq >= quietFrom:
+					c.Op(fmt.Sprintf("takeq %d", idx[p]), fmt.Sprintf("ok %d", e.B))
 				case e.Kind == "s.slot.want":
 					c.Op(fmt.Sprintf("want %d", idx[p]), "ok")
 				case e.Kind == "s.slot.take":
